@@ -489,6 +489,16 @@ impl ShardCtx {
         C: Serialize + Clone + std::fmt::Debug,
         S: Strategy<Value = C>,
     {
+        self.search_with(kind, strategy, n, run, None)
+    }
+
+    /// `search` plus a structural simplifier applied after proptest's own shrinking: `simpler(case)` lists
+    /// smaller variants of a case; the first one that fails with the same clause replaces it, to a fixpoint.
+    pub fn search_with<C, S>(&mut self, kind: &str, strategy: S, n: u64, run: &dyn Fn(&C) -> CaseOut, simpler: Option<&dyn Fn(&C) -> Vec<C>>)
+    where
+        C: Serialize + Clone + std::fmt::Debug,
+        S: Strategy<Value = C>,
+    {
         let mut runner = self.runner(kind);
         let mut known_shrinks = 0u32;
         for i in 0..n {
@@ -551,6 +561,28 @@ impl ShardCtx {
                             }
                         }
                     }
+                }
+            }
+            if let Some(simpler) = simpler {
+                let mut runs = 0u32;
+                'fix: loop {
+                    for c in simpler(&best.0) {
+                        runs += 1;
+                        if runs > 4000 || self.out_of_time() {
+                            break 'fix;
+                        }
+                        persist_current(kind, &c);
+                        call_begin(|| format!("{kind} simplification of case {i}: {}", truncate(&serde_json::to_string(&c).unwrap_or_default(), 4000)));
+                        let o = run(&c);
+                        call_end();
+                        if let Some(f) = o.failure {
+                            if f.clause == f0.clause {
+                                best = (c, f);
+                                continue 'fix;
+                            }
+                        }
+                    }
+                    break;
                 }
             }
             let before = self.res.violations.len();
